@@ -1,0 +1,15 @@
+//go:build verif
+
+// Contracts for package perunio, read by the verification-condition generator
+// in /verif (govc). Comments only; compiled only with the build tag "verif".
+
+package perunio
+
+// ByteSlice.Decode reads exactly len(*b) bytes with repeated Read calls (C13: no
+// panic for any reader behaviour; C16: full read independent of chunking).
+//@ func (*ByteSlice).Decode
+//@   requires r != nil
+//@   modifies (*b)[*]
+//@   loop 1
+//@     modifies (*b)[*]
+//@     invariant 0 <= n && n <= len(*b)
